@@ -7,8 +7,8 @@
    (choke_queue is instantiated twice per choke_group); a half is parametrised by its direction
    (flag_unchoke_all_new, the extra logic in receive_download_choke) through [env].
 
-   Counters are unbounded Z (DESIGN 3); the one place where the uint32 wrap is observable
-   (quota -= size_unchoked in ResourceManager::balance_unchoked) wraps explicitly. *)
+   Counters are unbounded Z (DESIGN 3). ResourceManager::balance_unchoked follows the repaired code
+   (commit 8c9c20f): quota -= std::min(quota, size_unchoked()). *)
 From Coq Require Import List NArith ZArith Bool Arith.
 Import ListNotations.
 Local Open Scope N_scope.
@@ -530,7 +530,7 @@ Fixpoint bal_groups (v : env) (gs : list nat) (quota weight : N) (h : half) (cha
   | g :: r =>
     do x <- cycle v g (if weight =? 0 then 0 else quota / weight) h;
     let '(h', ch) := x in
-    bal_groups v r (wsub32 quota (w32 (Z.to_N (q_cu (getq h' g))))) (weight - 1) h' (change + ch)%Z
+    bal_groups v r (quota - N.min quota (w32 (Z.to_N (q_cu (getq h' g))))) (weight - 1) h' (change + ch)%Z
   end.
 Fixpoint bal_groups_unl (v : env) (gs : list nat) (h : half) (change : Z) : res (half * Z) :=
   match gs with
